@@ -18,6 +18,19 @@ CLAIMED = {
    note="Trusted: Coq kernel, extraction (ExtrOcamlBasic), OCaml driver, Rust harness, Python oracle; hypothesis "
         "`sorted` (non-decreasing indices, property C02) and run_fits_u16 (complement = known finding D12).",
    technique="Coq proof (induction + loop invariants) over hand-written model; correspondence by OCaml extraction vs real code"),
+ "C02": dict(
+   category="proof",
+   text="Coq theorems over the Gallina model of wavemem::Encoder: for every operation sequence (any interleaving of "
+        "time_change and value changes, any block capacity >= 1 incl. the 65535 roll-over, any compressor) finish returns "
+        "exactly accepted(times) - time_table_spec - which is strictly increasing (accepted_strict) and contains every "
+        "timestamp greater than all earlier ones (accepted_complete); time_change never panics. Tied to the code by "
+        "running the extracted model and the real Encoder (hook) / VCD loader on the same histories with 1..131072 "
+        "(thorough: 262140) steps, repeated/backwards/late-start timestamps, plus an oracle computed from the abstract history.",
+   design_ref="DESIGN.md section 6, C02",
+   note="Trusted: Coq kernel, extraction, OCaml driver, Rust harness, generator/oracle gen.expected_obs. Index validity/monotonicity "
+        "of loaded signals is checked by the oracle (monitor) on every loaded waveform, its proof belongs to C04's load theorems. "
+        "FST time chain and GHW section reader are exercised in C10/C11, not modelled here.",
+   technique="Coq proof (invariant over op sequences) + correspondence via OCaml extraction"),
 }
 
 NOT_YET = {}
